@@ -122,6 +122,13 @@ func VerifyFunction(w *World, fn *ssa.Function, fc *FuncContract) (rep *FuncRepo
 	}
 	for _, fv := range fn.FreeVars {
 		bind(-1, fv.Name(), fv.Type())
+		if p, ok := args[len(args)-1].(PtrVal); ok {
+			// the cell of a captured variable is never nil; in contracts the name denotes its content
+			if len(p.Loc.Idx) == 1 {
+				vc.script.Assume(Ne(p.Loc.Idx[0], Zero))
+			}
+			params[fv.Name()] = TV{FreeCellVal{p}, p.Elem}
+		}
 	}
 	if vc.monitor != nil && len(fn.Params) > 0 {
 		if t, ok := args[0].(PtrVal); ok {
@@ -141,6 +148,9 @@ func VerifyFunction(w *World, fn *ssa.Function, fc *FuncContract) (rep *FuncRepo
 		_, _ = vc.deliveryState(st)
 		vc.setDelivery(st, ConstArr(ArrSort(SInt, SBool), False), False)
 		vc.entry = st.heap.Clone()
+	}
+	if usesChannels(fn) {
+		vc.chanComps() // before the state axioms, so that the channel-related ones apply from the entry state on
 	}
 	vc.assumeStateAxioms(st)
 	if fc != nil {
@@ -425,4 +435,21 @@ func isGhostComp(vc *VC, comp string) bool {
 
 func (vc *VC) readLocRegister(comp string, valSort Sort) {
 	vc.registerComp(comp, compInfo{Sort: ArrSort(SInt, valSort), Depth: 1, Ghost: true})
+}
+
+
+func usesChannels(fn *ssa.Function) bool {
+	for _, b := range fn.Blocks {
+		for _, in := range b.Instrs {
+			switch x := in.(type) {
+			case *ssa.MakeChan, *ssa.Send, *ssa.Select:
+				return true
+			case *ssa.UnOp:
+				if _, ok := x.X.Type().Underlying().(*types.Chan); ok {
+					return true
+				}
+			}
+		}
+	}
+	return false
 }
